@@ -94,7 +94,7 @@ def build_program(binding, probe_name, scopes, shadow_arg, macro_order, body_ord
 
 def all_programs(tier):
     seen = set()
-    sizes = (2, 3) if tier != "quick" else (2, 3)
+    sizes = (2, 3, 4) if tier != "quick" else (2, 3)
     for binding in HEADERS:
         for pname in PROBES:
             for r in sizes:
@@ -137,7 +137,7 @@ class C07(Check):
     )
 
     def bounds(self, tier):
-        return {"scopes_per_program": [2, 3], "probes": len(PROBES), "bindings": len(HEADERS)}
+        return {"scopes_per_program": [2, 3] if tier == "quick" else [2, 3, 4], "probes": len(PROBES), "bindings": len(HEADERS)}
 
     def all_cases(self, tier):
         return all_programs(tier)
